@@ -330,6 +330,7 @@ class Sim:
         self.finished = False
         self.outcome = None
         self.known = {}
+        self.tick = 0
         from collections import Counter as _C
         self.known_seen = _C()
         # choice 0 of every run: where a swept fault is injected (0 = nowhere); workloads that do
@@ -421,6 +422,8 @@ class Sim:
         self.externals.remove(e)
         if e.on_select is not None:
             e.on_select()
+        if self.tick:
+            self.loop._now += GRID  # external completions take (virtual) time
         self.event("x", e.label)
         self.loop.call_soon(e.fn)
 
